@@ -1,7 +1,9 @@
 package xsdtype
 
 import (
+	"math"
 	"regexp"
+	"strconv"
 )
 
 // lexical spaces which strconv.ParseFloat does not check (it also reads hexadecimal floats, underscores, any
@@ -10,3 +12,17 @@ var (
 	decimalLexicalRE = regexp.MustCompile(`^[+-]?([0-9]+(\.[0-9]*)?|\.[0-9]+)$`)
 	floatLexicalRE   = regexp.MustCompile(`^([+-]?([0-9]+(\.[0-9]*)?|\.[0-9]+)([eE][+-]?[0-9]+)?|[+-]?INF|NaN)$`)
 )
+
+// formatFloatLexicalForm writes a float or double value; the special values are INF, -INF and NaN.
+func formatFloatLexicalForm(v float64, bitSize int) string {
+	switch {
+	case math.IsInf(v, 1):
+		return "INF"
+	case math.IsInf(v, -1):
+		return "-INF"
+	case math.IsNaN(v):
+		return "NaN"
+	}
+
+	return strconv.FormatFloat(v, 'f', -1, bitSize)
+}
